@@ -87,6 +87,10 @@ def r1(ctx, F, hub):
                 labs |= hub.label_operand(body, op_)
             in_graph = body.path in hub.graph
             ok = in_graph and labs <= {SAFE} and (labs or all(hub.path_class(body, op_) == 'staging' for op_ in ops_))
+            if not ok and in_graph and hub.optional_staging and labs <= {SAFE, OTHER} and body.path.split('::{')[0].endswith('handle_put'):
+                # the staging name travels inside an Option field: its provenance is not followed through that field
+                ctx.undecided('C03.R1', 'handle_put removes / renames a path it keeps in an Option (%s): that it is a request path or its staging file is not decided' % hub.optional_staging)
+                continue
             if not ok and in_graph and callee(rt_).endswith('remove_dir') and labs and labs <= {SAFE, 'SIBLING'}:
                 ok = True       # removing an (empty) directory above a request path never unlinks a file: the lock is a file in a non-empty directory
             if not ok and in_graph and labs == {ROOT} and all(hub.from_walk(body, op_) for op_ in ops_):
@@ -285,6 +289,8 @@ def r3_r5(ctx, F, hub):
                 ctx.ok('C03.R3', '%s:staging-cleanup' % handler, 'removal of the server\'s own staging file (not a live path)', term_loc(b, mb))
             elif short == 'remove_dir':
                 ctx.undecided('C03.R3', '%s removes directories inside the commit region (pruning what a delete emptied): not a change of a live file, not judged' % handler)
+            elif hub.optional_staging and handler == 'handle_put':
+                ctx.undecided('C03.R3', 'handle_put keeps its staging file in an Option (%s): which file operation the commit region performs depends on its value' % hub.optional_staging)
             else:
                 ctx.bad('C03.R3', '%s:%s(%s)' % (handler, short, ','.join(classes)), 'unexpected file mutation inside the commit region', term_loc(b, mb))
         # no success reply without the corresponding operation: every path to a success reply passes the Ok edge of
